@@ -551,3 +551,213 @@ def config_pairs(run):
                                        f"{diff[0][:150]}: {diff[1][:120]} vs {diff[2][:120]}", path, True))
     run.cov["config_pairs"] = stats
     run.cov["evaluations"] = run.cov.get("evaluations", 0) + len(A)
+
+
+def alias_check(run):
+    """C14: isolation of stored values from caller memory, on random deep object shapes"""
+    n = 80 if run.tier == "quick" else 1500
+    try:
+        r = subprocess.run([run.harness, "-alias", "-n", str(n), "-seed", str(run.seed), "-root", os.path.join(run.scratch, "alias"), "-out", "x"],
+                           stdout=subprocess.PIPE, stderr=subprocess.PIPE, text=True, timeout=1200)
+        rep = json.loads(r.stdout.strip().splitlines()[-1])
+    except Exception as e:
+        path = run.write_replay({"kind": "harness-crash", "scenario": "alias", "detail": str(e)[:2000]})
+        run.violations.append(("the isolation scenario crashed or hung", str(e)[:300], path, True))
+        return
+    run.cov["alias"] = {"cases": rep["cases"], "configs": rep["configs"], "references_compared": rep["references_compared"],
+                        "failures": len(rep["failures"] or [])}
+    run.cov["evaluations"] = run.cov.get("evaluations", 0) + rep["cases"]
+    for i in range(rep["cases"]):
+        run.hashes.add(f"alias-{run.seed}-{i}")
+    run.samples.append([rep["sample"][:600]])
+    if rep["failures"]:
+        path = run.write_replay({"kind": "aliasing", "property": "C14", "failures": rep["failures"], "seed": run.seed,
+                                 "how_to_replay": f"harness -alias -n {n} -seed {run.seed}"})
+        run.violations.append(("stored values are not isolated from caller memory", rep["failures"][0][:300], path, True))
+
+
+# ---------------------------------------------------------------------------------------
+# C18: golden corpus written by the pinned release; C19: malformed directories
+# ---------------------------------------------------------------------------------------
+def golden_corpus(run):
+    """every directory of /verif/golden (written by the pinned release e481c06 under each of the
+    32 configurations) is copied, opened by the CURRENT code, read back completely, written to,
+    restarted and read back again; the model replays the pinned build's own trace followed by
+    the new one"""
+    gdir = os.path.join(VERIF, "golden")
+    ks = sorted(int(f[2:]) for f in os.listdir(gdir) if f.startswith("db"))
+    if run.tier == "quick":
+        ks = [k for k in ks if (k + run.seed) % 2 == 0]      # 16 of the 32 configurations per quick run
+    stats = {"directories": 0, "lines": 0, "disagreements": 0}
+
+    def one(k):
+        work = os.path.join(run.scratch, f"golden{k}")
+        subprocess.run(["cp", "-r", os.path.join(gdir, f"db{k}"), work])
+        out = os.path.join(run.scratch, f"goldenrun{k}")
+        r = sh([run.harness, "-golden", "-root", work, "-state-in", os.path.join(gdir, f"state{k}.json"), "-seed", str(run.seed * 100 + k), "-out", out], timeout=300)
+        old = [l for l in open(os.path.join(gdir, f"run{k}.trace")).read().splitlines() if not l.startswith("#")]
+        new = [l for l in open(out + ".trace").read().splitlines() if not l.startswith("#")] if os.path.exists(out + ".trace") else []
+        v = model_verdicts(old + new)
+        subprocess.run(["rm", "-rf", work])
+        return k, r.returncode, r.stdout[-500:], old, new, v
+    with ThreadPoolExecutor(max_workers=8) as ex:
+        results = list(ex.map(one, ks))
+    for k, code, out, old, new, v in results:
+        stats["directories"] += 1
+        stats["lines"] += len(new)
+        run.hashes.add(f"golden-{k}")
+        bad = [(l, x) for l, x in zip(old + new, v) if x != "="]
+        if code != 0 or bad or not new:
+            stats["disagreements"] += len(bad)
+            first = bad[0] if bad else ("process exit %d" % code, out)
+            path = run.write_replay({"kind": "golden-corpus", "property": "C18", "directory": f"golden/db{k}", "exit": code,
+                                     "first_disagreement": first, "all": bad[:20], "new_trace": new[:400],
+                                     "how_to_replay": f"cp -r golden/db{k} W; harness -golden -root W -state-in golden/state{k}.json"})
+            if len([x for x in run.violations if "golden" in x[0]]) < 3:
+                run.violations.append((f"a directory written by the pinned release (golden/db{k}) is not read back identically",
+                                       f"{str(first[0])[:200]} | model: {str(first[1])[:150]}", path, True))
+    run.cov["golden"] = stats
+    run.cov["evaluations"] = run.cov.get("evaluations", 0) + stats["directories"]
+    run.samples.append([f"golden/db{ks[0]} .. golden/db{ks[-1]}: sweep, 8 further writes, close, reopen, sweep"])
+
+
+def hostile_dirs(run):
+    """C19: damaged schema / object files and stray directory entries"""
+    args = ["-hostile", "-seed", str(run.seed), "-root", os.path.join(run.scratch, "hostile"), "-out", "x"]
+    args += ["-n", "40", "-limit", "220"] if run.tier == "quick" else ["-n", "400"]
+    try:
+        r = subprocess.run([run.harness] + args, stdout=subprocess.PIPE, stderr=subprocess.PIPE, text=True, timeout=3000)
+        rep = json.loads(r.stdout.strip().splitlines()[-1])
+        code = r.returncode
+    except Exception as e:
+        path = run.write_replay({"kind": "harness-crash", "scenario": "hostile", "detail": str(e)[:3000]})
+        run.violations.append(("the process crashed or hung on a damaged directory", str(e)[:300], path, True))
+        return
+    run.cov["hostile"] = {k: rep[k] for k in ("cases", "kinds", "first_access_outcomes", "calls_run")}
+    run.cov["evaluations"] = run.cov.get("evaluations", 0) + rep["cases"]
+    for i in range(rep["cases"]):
+        run.hashes.add(f"hostile-{i}")
+    run.samples.append(rep.get("sample_mutations") or ["(none)"])
+    if rep["failures"] or code not in (0, 1):
+        path = run.write_replay({"kind": "panic-on-malformed-input", "property": "C19", "failures": rep["failures"], "exit": code,
+                                 "stderr": r.stderr[-3000:], "how_to_replay": "harness " + " ".join(args)})
+        run.violations.append(("a call panicked or hung on a damaged directory", (rep["failures"] or [r.stderr[-300:]])[0][:300], path, True))
+
+
+def storage_faults(run):
+    """C06 (storage part): every single file operation of every history fails once with an I/O
+    error; afterwards the handle must be unchanged, or self-consistent, or reported as corrupted
+    by Control and restored by Repair; a restart must not see a silent divergence"""
+    h = shim_harness(run)
+    if not h:
+        return
+    quick = run.tier == "quick"
+    nhist = 16 if quick else 120
+    base = os.path.join(run.scratch, "iofault")
+    r = sh([h, "-profile", "iofault", "-seed", str(run.seed), "-n", str(nhist), "-out", base, "-root", base + ".db"])
+    trace = open(base + ".trace").read().splitlines()
+    opslines = open(base + ".ops").read().splitlines()
+    hists, cur = [], None
+    for l in trace:
+        if l.startswith("# history"):
+            cur = []
+            hists.append(cur)
+        elif cur is not None:
+            cur.append(l)
+    jobs = []
+    for hi, lines in enumerate(hists):
+        nm = sum(len(l.split("=>", 1)[1].split()) for l in lines if l.startswith("fsops =>"))
+        ks = list(range(1, nm + 1))
+        if quick and len(ks) > 25:
+            ks = sorted(random.Random(run.seed * 31 + hi).sample(ks, 25))
+        jobs += [(hi, k) for k in ks]
+    stats = {"histories": len(hists), "fault_points": len(jobs), "unchanged": 0, "self_consistent": 0, "reported_and_repaired": 0,
+             "known": 0, "violations": 0, "by_call": {}}
+
+    def one(job):
+        hi, k = job
+        tag = f"{base}-h{hi}-f{k}"
+        open(tag + ".in", "w").write(opslines[hi] + "\n")
+        r1 = sh([h, "-replay", tag + ".in", "-failat", str(k), "-root", tag + ".db", "-out", tag], timeout=300)
+        a = open(tag + ".trace").read().splitlines() if os.path.exists(tag + ".trace") else []
+        return job, r1.returncode, r1.stdout[-400:], a
+    with ThreadPoolExecutor(max_workers=16) as ex:
+        results = list(ex.map(one, jobs))
+    reported = 0
+    for (hi, k), code, out, a in results:
+        run.hashes.add(f"fault-{hi}-{k}")
+        idx = next((i for i, l in enumerate(a) if l.startswith("faultsame ")), None)
+        if code != 0 or idx is None:
+            if code != 0:
+                path = run.write_replay({"kind": "harness-crash", "scenario": "iofault", "history_ops": json.loads(opslines[hi]), "fail_at": k, "output": out})
+                run.violations.append((f"process crash after an injected I/O error (history {hi}, operation {k})", out[-200:], path, True))
+            continue          # the fault point was not reached (history shorter after an earlier rejection)
+        call = a[idx].split(" ")[2]
+        stats["by_call"][call] = stats["by_call"].get(call, 0) + 1
+        # the failing call itself: the line (and its fsops) just before
+        callline = next((l for l in reversed(a[:idx]) if not l.startswith("fsops")), "")
+        fsline = a[idx - 1] if a[idx - 1].startswith("fsops") else ""
+        res = callline.split(" => ")[-1]
+        same = a[idx].endswith("true")
+        tail = a[idx + 1:]
+        ctl = [l.split(" => ")[1] for l in tail if l.startswith("control => ")]
+        cons = [l.split(" => ")[1] for l in tail if l.startswith("consistent => ")]
+        rep = _result(tail, "repair")
+        problems = []
+        live_ok = ctl and ctl[0] == "ok" and cons and cons[0] == "true"
+        repaired = ctl and ctl[0] != "ok" and rep == "ok" and len(ctl) > 1 and ctl[1] == "ok" and len(cons) > 1 and cons[1] == "true"
+        if any(l.endswith("PANIC") for l in a):
+            problems.append(("panic", next(l for l in a if l.endswith("PANIC"))[:200]))
+        if call == "create" and cons and cons[0] == "E:notfound":
+            stats["unchanged"] += 1           # the very first Create failed: no collection exists, nothing to diverge
+            continue
+        if same and live_ok:
+            stats["unchanged"] += 1
+        elif live_ok and not res.endswith("ok"):
+            # the call answered an error but (part of) it is applied; index and files agree, so
+            # nothing diverges, yet the state is not "the same as before": recorded finding
+            stats["applied_despite_error"] = stats.get("applied_despite_error", 0) + 1
+            kf = known("C06", {"effect": "applied-despite-error", "consistent": True}, {})
+            if kf:
+                if kf not in run.known:
+                    run.known.append(kf)
+            else:
+                problems.append(("applied-despite-error", f"the failed {call} changed the observable state: {callline[:120]}"))
+        elif live_ok:
+            stats["self_consistent"] += 1
+        elif repaired:
+            stats["reported_and_repaired"] += 1
+        else:
+            problems.append(("silent-divergence" if ctl and ctl[0] == "ok" else "not-repaired",
+                             f"after the failed {call}: unchanged={same} control={ctl[:2]} consistent={cons[:2]} repair={rep}"))
+        # after a restart
+        i2 = next((i for i, l in enumerate(tail) if l.startswith("reopen")), None)
+        if i2 is not None:
+            first = _result(tail[i2:], "count")
+            c2 = [l.split(" => ")[1] for l in tail[i2:] if l.startswith("consistent => ")]
+            if first != "E:corrupted" and not (c2 and c2[0] == "true") and first != "E:notfound":
+                problems.append(("silent-divergence-after-restart", f"restart answers {first}, consistent={c2[:1]}"))
+        if not problems:
+            continue
+        toks = fsline.split("=>", 1)[1].split() if fsline else []
+        sig = {"call": call, "failed_op": next((t for t in toks if t.startswith("FAIL:")), "?"),
+               "done_before": [t for t in toks if not t.startswith("FAIL:")]}
+        kinds = sorted(set(p[0] for p in problems))
+        replay = {"kind": "storage-fault", "property": "C06", "history_ops": json.loads(opslines[hi]), "fail_at_mutation": k,
+                  "failing_call": callline, "file_operations_of_the_call": fsline, "signature": sig, "problems": problems,
+                  "trace": [l for l in a if not l.startswith("casemap")][-40:], "how_to_replay": "harness-shim -replay <ops> -failat <k>"}
+        # the recorded finding: an UPDATE whose object file was replaced when the schema commit failed
+        if kinds == ["silent-divergence-after-restart"] and sig["failed_op"] == "FAIL:ws" and any(t.startswith("w:") for t in sig["done_before"]):
+            kf = known("C06", {"window": "object-replaced/schema-commit-failed"}, replay)
+            if kf:
+                stats["known"] += 1
+                if kf not in run.known:
+                    run.known.append(kf)
+                continue
+        stats["violations"] += 1
+        reported += 1
+        if reported <= 3:
+            path = run.write_replay(replay)
+            run.violations.append((f"storage fault at file operation {k} of history {hi}: " + ", ".join(kinds), problems[0][1], path, True))
+    run.cov["storage_faults"] = stats
+    run.cov["evaluations"] = run.cov.get("evaluations", 0) + len(jobs)
